@@ -119,8 +119,13 @@ CHECKS.update({
             "1-2 min per operator). argmin/argmax/min/max: decided at the (5,11) format for length-2 arrays; counterexamples are lifted to "
             "float64 and replayed on the real code (open known findings F14: near-ties below double resolution are mis-ordered). "
             "_parse_string: CrossHair contract over a symbolic str of the decimal grammar (length <= 5 quick / 7 thorough) plus exact "
-            "replays of exemplar spellings through from_string.",
-            "NOT decided: decimal rendering (to_string/__format__: float->decimal conversion in C), argsort/sort/ptp (they run the "
+            "replays of exemplar spellings through from_string. Rendering: the real to_string/do_format/__format__ string surgery runs "
+            "on symbolic decimal strings whose digits are solver variables constrained by the renderer contract (correct rounding of the "
+            "exact value for '.Nf', half-ulp round-tripping decimal for str()); for every count |i| <= 2^52 and fraction in [-1/2,1/2], "
+            "precision 0..15 and None, imaginary/alwayssign/latex variants: the result is a well-formed decimal with the digits asked for "
+            "within half a unit of the last digit (1e-16 without precision) of the exact value, sign and suffix right.",
+            "Rendering is decided in exact reals: the float rounding of frac+0.25 / frac+1 and precisions above 15 are outside. "
+            "NOT decided: argsort/sort/ptp (they run the "
             "two-double day_frac chain, which z3 does not decide even at an 8-bit significand); reductions only at reduced width; "
             "CrossHair 'not confirmed' = no counterexample within its budget, not a proof."),
 })
